@@ -172,7 +172,9 @@ class Variant:
             for f in self.fields:
                 p = ""
                 if f.default_with is not None:
-                    p += "#[strum(default_with = %s)] " % rs_str(f.default_with)
+                    # other attributes may precede the strum one on a field
+                    pre = ["", "", "#[allow(unused)] ", "/// field doc\n        ", "#[cfg(all())] "][(self.attr_order_seed + len(parts)) % 5]
+                    p += pre + "#[strum(default_with = %s)] " % rs_str(f.default_with)
                 p += "%s: %s" % (f.name, TYPES[f.ty][0])
                 parts.append(p)
             body += " { " + ", ".join(parts) + " }"
@@ -233,6 +235,8 @@ GENERICS = {
     "TN": ("<T: Default, const N: usize>", "", "::<u8, 3>"),
     "Nfree": ("<const N: usize>", "", "::<3>"),
     "Tdef": ("<T: Default = u8>", "", "::<u8>"),
+    "aTwd": ("<'a, T>", " where T: Default + Clone + 'a", "::<'static, u8>"),
+    "TwU": ("<T, U>", " where T: Default, U: Default + Clone", "::<u8, String>"),
     "TNdef": ("<T: Default = u8, const N: usize = 3>", "", "::<u8, 3>"),
     "aTw": ("<'a, T>", " where T: Clone + 'a", "::<'static, u8>"),
     "I": ("<I>", " where I: Iterator, I::Item: Clone", "::<std::vec::IntoIter<u8>>"),
@@ -358,3 +362,6 @@ def pspec_rust(spec, name="SPEC", extra=()):
     ex = ", ".join("(%s, %s)" % (rs_str(c), rs_str(s)) for c, s in extra)
     return ("static %s: vmon::inputs::PSpec = vmon::inputs::PSpec { variants: &[\n        %s\n    ], extra: &[%s] };"
             % (name, ",\n        ".join(vs), ex))
+
+# a function referenced by noise `default_with` attributes (only EnumString would ever call it)
+PRELUDE_TYPES += "\npub fn noise_default_with() -> u8 { 99 }\n"
